@@ -24,4 +24,20 @@ TABLE = {
         "note": _NOTE + " Values after a concrete resize history are runtime data and are not decided. Three recorded known findings (K5).",
         "technique": "must-pass-through on the CFG (toggle -> cache reset), call-graph reachability to query_terminal for memo discovery, lock-scope containment",
     },
+    "C19": {
+        "text": "The acceptance set of a format specifier is decided exactly, for strings of every length: the regex literals and the boolean "
+                "combination are read from the syntax tree, compiled to DFAs and compared (product automaton) with the documented grammar; plus group/unpack "
+                "agreement, default-table agreement with draw(), per-style table agreement (patterns, _style_args, renderer parameters), anchoring of the style "
+                "field parser and absence of side effects in the checking functions.",
+        "note": _NOTE + " The style sub-grammar acceptance is decided as table/anchoring agreement, not as a language. Non-ASCII category members are represented by sample code points.",
+        "technique": "regular-language algebra on regex literals (re._parser -> NFA -> DFA product, shortest witness) + table agreement + effect query",
+    },
+    "C20": {
+        "text": "Resolution instance -> class -> default is Python attribute lookup provided override cells are written correctly; the rules decide exactly that: "
+                "unset paths delete the receiver's own cell and never store (except the default-defining class), setters store only the receiver's cell after "
+                "validation on every accepted path, getters read through the instance/class, class-only settings have getter-only instance properties, the "
+                "native-animation limit has a single metaclass cell, and the two forms of set_render_method validate identically.",
+        "note": _NOTE + " Python's MRO attribute lookup is trusted; results for arbitrary subclass trees follow from it given R1-R6.",
+        "technique": "who-may-write / delete-vs-store discipline on override cells, must-pass-through and validate-before-store on the CFG, sibling agreement",
+    },
 }
